@@ -214,6 +214,9 @@ def snap_mesh(m, S, pre=""):
     S[pre + "volume"] = _try(lambda: m.volume)
     S[pre + "centroid"] = _try(lambda: m.centroid)
     S[pre + "face_normals"] = _try(lambda: m.face_normals)
+    S[pre + "vertex_normals"] = _try(lambda: m.vertex_normals)
+    S[pre + "center_mass"] = _try(lambda: m.center_mass)
+    S[pre + "density"] = _try(lambda: m.density)
     snap_visual(m.visual, S, pre)
     S[pre + "metadata"] = _try(lambda: m.metadata)
     S[pre + "attributes"] = _try(lambda: {"face": dict(m.face_attributes), "vertex": dict(m.vertex_attributes)})
@@ -494,10 +497,73 @@ def f_voxel(enc):
     return make
 
 
+def prepared(make, prep):
+    """The object in a state reached by a history: built, then `prep` applied (reads, edits)."""
+
+    def make2(seed):
+        o = make(seed)
+        prep(o)
+        return o
+
+    return make2
+
+
+_ROT = np.array([[0.0, -1.0, 0.0, 0.0], [0.0, 0.0, -1.0, 0.0], [1.0, 0.0, 0.0, 0.0], [0.0, 0.0, 0.0, 1.0]])  # a proper rotation
+
+
+def _prep_warm_inplace_vertices(o):
+    # everything read, then an in-place edit that nothing has looked at yet when the copy is taken
+    snap(o)
+    o.vertices[0] += (1.5, 0.5, -1.0)[: o.vertices.shape[1]]
+
+
+def _prep_normals_transform(m):
+    # normals read and then carried through a transform by the library itself
+    _ = m.face_normals, m.vertex_normals
+    m.apply_transform(_ROT)
+
+
+def _prep_mass_override(m):
+    m.center_mass = np.array([0.25, -0.5, 0.75])
+    m.density = 2.5
+
+
+def _prep_warm_param(p):
+    snap(p)
+    if "extents" in p.primitive._defaults:
+        p.primitive.extents[0] += 1.5
+    elif "radius" in p.primitive._defaults:
+        p.primitive.radius = float(p.primitive.radius) + 1.5
+    else:
+        p.primitive.height = float(p.primitive.height) + 1.5
+
+
+def _prep_scene_warm_geometry_edit(s):
+    snap(s)
+    s.geometry["A"].vertices[0] += (1.5, 0.5, -1.0)
+
+
+def _prep_voxel_warm_transform(v):
+    snap(v)
+    v.transform[0, 3] += 2.0
+
+
 def factories():
     out = []
     for v in ("plain", "face", "vertex", "texture", "attrs", "default_vertex_colors_edited", "default_face_colors_edited"):
         out.append(("Trimesh", v, f_trimesh(v)))
+    # states reached by a history before the copy is taken
+    out.append(("Trimesh", "plain+warm_inplace_edit", prepared(f_trimesh("plain"), _prep_warm_inplace_vertices)))
+    out.append(("Trimesh", "plain+normals_transform", prepared(f_trimesh("plain"), _prep_normals_transform)))
+    out.append(("Trimesh", "plain+mass_override", prepared(f_trimesh("plain"), _prep_mass_override)))
+    for c in ("Box", "Cylinder"):
+        out.append((c, "params+mass_override", prepared(f_primitive(c), _prep_mass_override)))
+        out.append((c, "params+warm_param_edit", prepared(f_primitive(c), _prep_warm_param)))
+    out.append(("Path2D", "line+arc+warm_inplace_edit", prepared(f_path(2), _prep_warm_inplace_vertices)))
+    out.append(("Path3D", "lines+warm_inplace_edit", prepared(f_path(3), _prep_warm_inplace_vertices)))
+    out.append(("PointCloud", "colors+warm_inplace_edit", prepared(f_cloud, _prep_warm_inplace_vertices)))
+    out.append(("Scene", "nested+warm_geometry_edit", prepared(f_scene, _prep_scene_warm_geometry_edit)))
+    out.append(("VoxelGrid", "Dense+warm_transform_edit", prepared(f_voxel("Dense"), _prep_voxel_warm_transform)))
     for c in ("Box", "Sphere", "Cylinder", "Capsule", "Extrusion"):
         out.append((c, "params", f_primitive(c)))
     out.append(("Path2D", "line+arc", f_path(2)))
@@ -572,6 +638,9 @@ def edits_for(obj, variant):
         for key, val in (("radius", 7.5), ("height", 6.5), ("sections", 4), ("subdivisions", 0)):
             if key in obj.primitive._defaults:
                 E.append(("param_" + key, lambda p, key=key, val=val: setattr(p.primitive, key, val)))
+        if "mass_override" in variant:
+            E.append(("center_mass_inplace", lambda p: p.center_mass.__setitem__(0, p.center_mass[0] + 2.0)))
+            E.append(("density_assign", lambda p: setattr(p, "density", 7.0)))
         if "extents" in obj.primitive._defaults:
             E.append(("param_extents", lambda p: setattr(p.primitive, "extents", [2.5, 3.5, 4.5])))
             E.append(("param_extents_inplace", lambda p: p.primitive.extents.__setitem__(0, p.primitive.extents[0] + 1.5)))
@@ -586,6 +655,10 @@ def edits_for(obj, variant):
             ("update_faces", lambda m: m.update_faces(np.arange(len(m.faces)) > 0)),
             ("invert", lambda m: m.invert()),
         ]
+        if "mass_override" in variant:
+            E.append(("center_mass_inplace", lambda m: m.center_mass.__setitem__(0, m.center_mass[0] + 2.0)))
+            E.append(("center_mass_assign", lambda m: setattr(m, "center_mass", [3.0, 2.0, 1.0])))
+            E.append(("density_assign", lambda m: setattr(m, "density", 7.0)))
         if variant == "face":
             E.append(("visual_face_colors_inplace", lambda m: m.visual.face_colors.__setitem__(0, [1, 2, 3, 255])))
             E.append(("visual_face_colors_assign", lambda m: setattr(m.visual, "face_colors", [9, 8, 7, 255])))
@@ -661,7 +734,7 @@ def edits_for(obj, variant):
 # the protocol
 
 # fields that only restate a primitive's parameters: a parameter difference explains them
-_DERIVED = ("vertices", "faces", "bounds", "area", "volume", "centroid", "face_normals")
+_DERIVED = ("vertices", "faces", "bounds", "area", "volume", "centroid", "face_normals", "vertex_normals", "center_mass")
 
 
 def _reduce_fields(fields):
@@ -681,7 +754,7 @@ def _reduce_fields(fields):
     if "transform" in out or "encoding.dense" in out:
         out = [f for f in out if f not in ("bounds", "points", "volume", "filled_count", "shape")]
     if "vertices" in out or "faces" in out:
-        out = [f for f in out if f not in ("bounds", "area", "volume", "centroid", "face_normals", "length", "n_polygons")]
+        out = [f for f in out if f not in ("bounds", "area", "volume", "centroid", "face_normals", "vertex_normals", "center_mass", "length", "n_polygons")]
     if "entities" in out:
         out = [f for f in out if f not in ("length", "area", "bounds", "n_polygons")]
     return sorted(set(out))
@@ -827,7 +900,9 @@ def edit_stage(h, edit_name, edit, side, src_warm, other_warm):
 
 
 def _gen_path(p):
-    return re.sub(r"\[[^\]]*\]", "[]", p)
+    # list positions are generalised, dictionary keys (cache entries, geometry names) are kept:
+    # two cache entries are two different places to leak through
+    return re.sub(r"\[\d+\]", "[]", p)
 
 
 def walker_stage(h, src_warm):
